@@ -43,6 +43,10 @@ pub enum Op {
         recipient: String,
         on: bool,
     },
+    /// sub-second part of the block time from now on
+    Nanos {
+        ns: u64,
+    },
     /// C15: enumerate the complete (contract x privileged message x role x funds) matrix on forks
     Audit,
     /// C06: dry-run a claim for every user with an open position on a fork
@@ -151,6 +155,7 @@ impl Op {
             Op::Fc { .. } => "fc.ownership",
             Op::Send { .. } => "bank.send",
             Op::Freeze { .. } => "fault.freeze",
+            Op::Nanos { .. } => "clock.nanos",
             Op::Audit => "audit",
             Op::DryClaims => "dry_claims",
             Op::EpochProbe => "epoch_probe",
